@@ -217,6 +217,20 @@ pub fn seq_core(tier: Tier, base: &[&'static str]) -> Vec<Scenario> {
         sc.prefill = ms;
         v.push(seq(&format!("histories-prefilled/ms{}", ms), "same, starting from a pool full of idle objects (recycle paths)", if b.thorough { 3 } else { 2 }, sc));
     }
+    // every step goes through the timeout wrappers, with the two idioms for
+    // "practically never": one hour and Duration::MAX
+    for max in [false, true] {
+        let mut c = PoolCfg::simple(1);
+        c.create_menu = ERRS.to_vec();
+        c.recycle_menu = ERRS.to_vec();
+        let mut sc = SeqScenario::new(c, if b.thorough { 7 } else { 5 }, base);
+        sc.max_tasks = 2;
+        sc.prefill = 1;
+        sc.timeouts = true;
+        sc.timeouts_max = max;
+        sc.gets_nonblocking = false;
+        v.push(seq(&format!("histories-with-timeouts/{}/ms1", if max { "max" } else { "hour" }), "pool built with wait/create/recycle timeouts that never fire (one hour, or Duration::MAX) and the tokio runtime on a paused clock: waiting, creating and recycling through the timeout wrappers", if b.thorough { 3 } else { 2 }, sc));
+    }
     v
 }
 
@@ -362,7 +376,7 @@ pub fn c04_scenarios(tier: Tier, base: &[&'static str]) -> Vec<Scenario> {
             c.create_menu = ERRS.to_vec();
             c.recycle_menu = ERRS.to_vec();
             c = with_hooks(c, layout, ERRS);
-            let mut sc = SeqScenario::new(c, if b.thorough { 9 } else { 7 }, base);
+            let mut sc = SeqScenario::new(c, if b.thorough { 10 } else { 8 }, base);
             sc.max_tasks = 1;
             sc.prefill = ms;
             sc.take = false;
@@ -380,7 +394,7 @@ pub fn c04_scenarios(tier: Tier, base: &[&'static str]) -> Vec<Scenario> {
         c.create_menu = ERRS.to_vec();
         c.recycle_menu = ERRS.to_vec();
         c = with_hooks(c, layout, ERRS);
-        let mut sc = SeqScenario::new(c, if b.thorough { 8 } else { 6 }, base);
+        let mut sc = SeqScenario::new(c, if b.thorough { 9 } else { 7 }, base);
         sc.max_tasks = 1;
         sc.prefill = 2;
         sc.take = false;
@@ -396,7 +410,7 @@ pub fn c04_scenarios(tier: Tier, base: &[&'static str]) -> Vec<Scenario> {
         c.lifo = lifo;
         c.create_menu = vec![Out::Ok, Out::PendOk];
         c.recycle_menu = vec![Out::Ok, Out::PendOk, Out::PendErr, Out::Err];
-        let mut sc = SeqScenario::new(c, if b.thorough { 9 } else { 7 }, base);
+        let mut sc = SeqScenario::new(c, if b.thorough { 10 } else { 8 }, base);
         sc.max_tasks = 2;
         sc.prefill = 2;
         sc.take = false;
@@ -410,7 +424,7 @@ pub fn c04_scenarios(tier: Tier, base: &[&'static str]) -> Vec<Scenario> {
     c.create_menu = vec![Out::Ok, Out::Err];
     c.recycle_menu = vec![Out::Ok, Out::Err, Out::Panic];
     c = with_hooks(c, 1, SYNC_MENU);
-    let mut sc = SeqScenario::new(c, if b.thorough { 6 } else { 5 }, base);
+    let mut sc = SeqScenario::new(c, if b.thorough { 8 } else { 6 }, base);
     sc.max_tasks = 1;
     sc.prefill = 2;
     sc.take = false;
@@ -563,6 +577,35 @@ pub fn c08_scenarios(tier: Tier) -> Vec<Scenario> {
             sc.prefill = if ms == 3 { 3 } else { 0 };
             sc.gets_nonblocking = false;
             v.push(seq(&format!("order-histories/{}/ms{}", if lifo { "lifo" } else { "fifo" }, ms), "every history of gets, returns in any order, takes, retains, resizes and rejected recycles; the object offered first must be the longest-idle (Fifo) / most recently returned (Lifo) one, create only when nothing idle is left", 2, sc));
+        }
+    }
+    v
+}
+
+/// The configuration reaches the pool through the builder: every order and
+/// flavour of the builder calls (`build_pool_with`) x both queue modes x
+/// timeouts configured or not, followed by short histories whose reuse order
+/// (C08) and capacity (C01) reveal what the pool was really built with.
+pub fn builder_scenarios(tier: Tier, base: &[&'static str]) -> Vec<Scenario> {
+    let b = bounds(tier);
+    let mut v = Vec::new();
+    for lifo in [false, true] {
+        for timeouts in [false, true] {
+            let mut c = PoolCfg::simple(2);
+            c.lifo = lifo;
+            c.builder_sweep = true;
+            let mut sc = SeqScenario::new(c, if b.thorough { 7 } else { 5 }, base);
+            sc.max_tasks = 3;
+            sc.cancel = false;
+            sc.take = false;
+            sc.gets_nonblocking = false;
+            sc.timeouts = timeouts;
+            v.push(seq(
+                &format!("builder-orders/{}/{}", if lifo { "lifo" } else { "fifo" }, if timeouts { "timeouts" } else { "plain" }),
+                "the same max_size / timeouts / queue mode / runtime given to the builder in 7 different orders and flavours (setters in either order, per-timeout setters, config(), config() then setters, a setter called twice, setters after runtime()); then every short history of gets and returns: reuse order and capacity must be those configured",
+                0,
+                sc,
+            ));
         }
     }
     v
@@ -739,11 +782,11 @@ pub fn unmanaged_scenarios(tier: Tier, with_close: bool) -> Vec<Scenario> {
 pub fn c10_scenarios(tier: Tier) -> Vec<Scenario> {
     use crate::tworld::{run_time, run_utime, PState, TimeScenario, UTimeScenario};
     let b = bounds(tier);
-    let ev = if b.thorough { 11 } else { 8 };
+    let ev = if b.thorough { 10 } else { 7 };
     let mut v = Vec::new();
     for with_runtime in [true, false] {
         for state in [PState::Empty, PState::Idle, PState::Exhausted, PState::Closed, PState::Owed, PState::Shared] {
-            let sc = TimeScenario { with_runtime, state, max_events: if with_runtime { ev } else { 2 } };
+            let sc = TimeScenario { with_runtime, state, max_events: if with_runtime { ev } else { 2 }, builder_sweep: b.thorough || !with_runtime || state == PState::Empty };
             v.push(Scenario::new(
                 &format!("managed/{}/{:?}", if with_runtime { "tokio" } else { "no-runtime" }, state),
                 "pool-level and per-call wait/create/recycle timeouts in {none, zero, 10ms} x every create/recycle answer x every ordering of clock advances (4ms / 12ms), slot release and gate completion before each poll, on a paused tokio clock",
@@ -774,6 +817,7 @@ pub fn spec_for(prop: &str, tier: Tier) -> Option<CheckSpec> {
     let scenarios = match prop {
         "C01" => {
             let mut v = conc_core(tier, &["C01"]);
+            v.extend(builder_scenarios(tier, &["C01"]));
             v.extend(reach_scenarios(tier, &["C01"], false, false));
             v
         }
@@ -815,6 +859,7 @@ pub fn spec_for(prop: &str, tier: Tier) -> Option<CheckSpec> {
         }
         "C08" => {
             let mut v = c08_scenarios(tier);
+            v.extend(builder_scenarios(tier, &["C08"]));
             v.extend(reach_scenarios(tier, &["C08"], true, false));
             v.extend(reach_scenarios_mode(tier, &["C08"], true, false, true));
             v.extend(reach_scenarios(tier, &["C08"], false, false));
